@@ -173,6 +173,30 @@ theorem processor_consumed_eq_sum_and_le_max (l : Dims) (r : Raw) (hr : r.length
   · intro ds; exact (processTxs_accepts_iff l ds r hr hl h0).1
   · intro ds; exact (processTxs_accepts_iff l ds r hr hl h0).2
 
+/-- **C12, the manager a block starts from.** Builder and processor meter every block on
+`parent.ComputeNext(blockTime, rules)`; whatever the parent manager holds (its own block's
+consumption) and whatever time separates the blocks, that manager has the right size and
+zero consumption in every dimension. -/
+theorem computeNext_starts_from_zero (rp : Raw) (t : Int) (targets denoms mins : Dims) (r0 : Raw)
+    (h : computeNext rp t targets denoms mins = some r0) :
+    r0.length = rawWords ∧ ∀ k, k < feeDimensions → lastConsumed r0 k = 0 :=
+  computeNext_consumed_zero rp t targets denoms mins r0 h
+
+/-- **C12, a verified block on any parent**: if the metering loop accepts the block on the
+manager derived from the parent's fee state, the recorded consumption is exactly the sum of
+this block's transactions' units (nothing of the parent's), within the maximum. -/
+theorem verified_block_consumed_eq_own_sum (rp : Raw) (t : Int) (targets denoms mins l : Dims)
+    (r0 r' : Raw) (us : List (Except UnitsErr Dims))
+    (h0 : computeNext rp t targets denoms mins = some r0) (h : processTxs l r0 us = .ok r') :
+    ∃ ds, us = ds.map Except.ok ∧
+      (∀ k, k < feeDimensions → lastConsumed r' k = sumDims ds k) ∧
+      (∀ k, k < feeDimensions → lastConsumed r' k ≤ dget l k) := by
+  obtain ⟨hlen, hz⟩ := computeNext_consumed_zero rp t targets denoms mins r0 h0
+  obtain ⟨ds, h1, _, h3, h4, _⟩ := processTxs_ok l us r0 r' hlen h
+  refine ⟨ds, h1, ?_, ?_⟩
+  · intro k hk; rw [h3 k hk, hz k hk, Nat.zero_add]
+  · exact h4 (fun k hk => by rw [hz k hk]; exact Nat.zero_le _)
+
 /-- a failing `Units` of some transaction rejects the block with that error, unless an earlier
 transaction already exceeded the maximum -/
 theorem processor_units_error (l : Dims) (r : Raw) (e : UnitsErr)
